@@ -241,32 +241,43 @@ Section Main.
         * cbn. change (getw s i) with w. rewrite Epc. reflexivity.
         * unfold pcl, emit_end. gsw s I. cbn [w_pc with_pc w_next w_emit]. split; [exact Hcan|]. split; [|exact Hj]. exact Hce.
         * unfold sl. gsw s I. cbn [w_pc with_pc]. right. split; assumption.
-    - (* After: advance and emit the null chunks *)
-      destruct Hpcl as (Hcan & Hce & Hj). injection E as <-. left.
-      set (k := n / max).
-      assert (Hrec : {| w_pos := w_pos w + k * max; w_emit := w_emit w ++ null_chunks max k (c_end c);
-                        w_cons := w_cons w; w_sync := w_sync w; w_next := w_next w; w_active := true; w_eof := false; w_pc := Skip |} =
-                     {| w_pos := w_pos w + covered (null_chunks max k (c_end c)); w_emit := w_emit w ++ null_chunks max k (c_end c);
-                        w_cons := w_cons w; w_sync := w_sync w; w_next := w_next w; w_active := true; w_eof := false; w_pc := Skip |}).
-      { rewrite covered_null_chunks. reflexivity. }
-      rewrite Hrec.
-      assert (Hfacts : chain (c_end c) (null_chunks max k (c_end c)) /\ Forall canon (null_chunks max k (c_end c))).
-      { destruct (Nat.eq_dec k 0) as [E0|Hk0]; [rewrite E0; cbn; split; constructor|].
-        assert (Hnm : max <= n).
-        { destruct (Nat.lt_ge_cases n max) as [Hlt|]; [|assumption]. exfalso. apply Hk0. unfold k. apply Nat.div_small. exact Hlt. }
+    - (* After: one synthetic null chunk per step *)
+      destruct Hpcl as (Hcan & Hce & Hj).
+      destruct (n <? max) eqn:Enm; injection E as <-; left.
+      + (* nothing (more) to emit *)
+        apply (pc_only_inv H min max d data nw span s i _ I Ei (with_pc_same H data w Skip)).
+        * cbn. change (getw s i) with w. rewrite Epc. reflexivity.
+        * unfold pcl. gsw s I. exact Logic.I.
+        * unfold sl. gsw s I. exact Logic.I.
+      + apply Nat.ltb_ge in Enm.
         destruct Hsl as [Hlt|[Zc Zd]]; [lia|].
-        assert (Hkn : k * max <= n) by (unfold k; rewrite Nat.mul_comm; apply Nat.mul_div_le; lia).
         destruct (canon_bounds min max d data Hmin Hmax Hpos c Hcan) as (_ & Hsz & _).
-        assert (Hz : all_zero (c_end c) (k * max)).
+        set (nc := (c_end c, max)).
+        assert (Hz1 : all_zero (c_end c) (1 * max)).
         { eapply az_sub; [exact Zc|unfold c_end, c_start, c_size in *; lia|unfold c_end, c_start, c_size in *; lia]. }
-        destruct (null_chunks_facts (c_end c) Zd k Hz) as (F1 & F2 & _). split; assumption. }
-      destruct Hfacts as [F1 F2].
-      apply (push_inv H min max d data Hmin Hmax Hpos nw span Hspan s i _ Skip I Ei Hactb).
-      * rewrite <- Hce. exact F1.
-      * exact F2.
-      * reflexivity.
-      * unfold pcl. rewrite getw_setw by (rewrite (p_n _ _ _ _ _ _ s I); exact Ei). rewrite Nat.eqb_refl. exact Logic.I.
-      * unfold sl. rewrite getw_setw by (rewrite (p_n _ _ _ _ _ _ s I); exact Ei). rewrite Nat.eqb_refl. exact Logic.I.
+        destruct (null_chunks_facts (c_end c) Zd 1 Hz1) as (F1 & F2 & _). cbn [null_chunks] in F1, F2. fold nc in F1, F2.
+        assert (Hrec : {| w_pos := w_pos w + max; w_emit := w_emit w ++ [nc];
+                          w_cons := w_cons w; w_sync := w_sync w; w_next := w_next w; w_active := true; w_eof := false; w_pc := After nc (n - max) |} =
+                       {| w_pos := w_pos w + covered [nc]; w_emit := w_emit w ++ [nc];
+                          w_cons := w_cons w; w_sync := w_sync w; w_next := w_next w; w_active := true; w_eof := false; w_pc := After nc (n - max) |}).
+        { cbn. unfold c_size, nc. cbn. rewrite Nat.add_0_r. reflexivity. }
+        rewrite Hrec.
+        apply (push_inv H min max d data Hmin Hmax Hpos nw span Hspan s i _ (After nc (n - max)) I Ei Hactb).
+        * rewrite <- Hce. exact F1.
+        * exact F2.
+        * reflexivity.
+        * unfold pcl. rewrite getw_setw by (rewrite (p_n _ _ _ _ _ _ s I); exact Ei). rewrite Nat.eqb_refl.
+          cbn [w_pc w_next]. split; [inversion F2; assumption|]. split; [|exact Hj].
+          unfold emit_end. rewrite getw_setw by (rewrite (p_n _ _ _ _ _ _ s I); exact Ei). rewrite Nat.eqb_refl.
+          cbn [w_emit]. rewrite covered_app. unfold emit_end in Hce. fold w in Hce. change (getw s i) with w.
+          assert (Hcn : covered [nc] = max) by (cbn; unfold c_size, nc; cbn; lia).
+          assert (Hen : c_end nc = c_end c + max) by (unfold c_end at 1; unfold nc; cbn; reflexivity).
+          rewrite Hcn, Hen. lia.
+        * unfold sl. rewrite getw_setw by (rewrite (p_n _ _ _ _ _ _ s I); exact Ei). rewrite Nat.eqb_refl.
+          cbn [w_pc]. destruct (Nat.lt_ge_cases (n - max) max) as [Hl|Hg]; [left; exact Hl|right].
+          split; [|exact Zd]. replace (n - max + max) with n by lia.
+          assert (Hsn : c_start nc = c_start c + c_size c) by reflexivity.
+          eapply az_sub; [exact Zc|lia|lia].
     - (* Skip *)
       set (j := w_next w) in *. set (b := getw s j) in *.
       destruct ((j <? nworkers s) && negb (w_active b) && (length (w_emit b) <=? w_cons b)) eqn:Ec; injection E as <-; left.
